@@ -128,7 +128,9 @@ def gen_leaf_update(rng, leaf, allow_multi=True):
 def gen_store(rng, depth, leaves, prefix=()):
     node = {}
     for k in rng.sample(KEYS, rng.randint(1, 3)):
-        if depth > 1 and rng.random() < 0.4:
+        if depth > 1 and rng.random() < 0.08:
+            node[k] = {'$br': {}}          # a store that holds no child at the moment (F27)
+        elif depth > 1 and rng.random() < 0.4:
             node[k] = {'$br': gen_store(rng, depth - 1, leaves, prefix + (k,))}
         else:
             upd = rng.choice(UPDATERS)
@@ -338,7 +340,7 @@ def dec_store(node, np, units):
 
 
 def dump(store, np):
-    if store.inner:
+    if store.inner or not store.leaf:          # (a store without children is still a branch)
         return {'$br': {k: dump(v, np) for k, v in store.inner.items()}}
     return {'$val': enc_val(store.value, np)}
 
